@@ -53,20 +53,93 @@ func runC11(e *Env) error {
 				ctx[nm] = "ctx-" + nm
 				state[nm] = "ctx-" + nm
 			case 2:
-				pre.WriteString("{% set " + nm + " = 'set-" + nm + "' %}")
-				state[nm] = "set-" + nm
-			}
-		}
-		with := map[string]string{}
-		var withSrc []string
-		if rg.Intn(2) == 0 {
-			for _, nm := range c11Names {
-				if rg.Intn(3) == 0 {
-					with[nm] = "with-" + nm
-					withSrc = append(withSrc, "'"+nm+"': 'with-"+nm+"'")
+				if rg.Intn(4) == 0 {
+					pre.WriteString("{% set " + nm + " = null %}")
+					state[nm] = ""
+				} else {
+					pre.WriteString("{% set " + nm + " = 'set-" + nm + "' %}")
+					state[nm] = "set-" + nm
 				}
 			}
 		}
+		// with-values: literals, null, expressions that read the includer's variables (also ones a sibling entry
+		// rebinds: every value is evaluated in the includer's scope), and — rarely — a value that fails
+		genWith := func(scope map[string]string, p int) (map[string]string, []string, bool) {
+			with := map[string]string{}
+			var src []string
+			failsHere := false
+			if rg.Intn(p) != 0 {
+				return with, src, false
+			}
+			for _, nm := range c11Names {
+				if rg.Intn(3) != 0 {
+					continue
+				}
+				switch rg.Intn(6) {
+				case 0:
+					with[nm] = ""
+					src = append(src, "'"+nm+"': null")
+				case 1, 2:
+					other := pick(rg, c11Names)
+					with[nm] = scope[other] + "!"
+					src = append(src, "'"+nm+"': "+other+" ~ '!'")
+				default:
+					with[nm] = "with-" + nm
+					src = append(src, "'"+nm+"': 'with-"+nm+"'")
+				}
+			}
+			if len(src) > 0 && rg.Intn(12) == 0 {
+				src = append(src, "'"+pick(rg, c11Names)+"': nosuchfn()")
+				failsHere = true
+			}
+			return with, src, failsHere
+		}
+		applyScope := func(scope, with map[string]string, only bool) map[string]string {
+			out := map[string]string{}
+			if !only {
+				for k, v := range scope {
+					out[k] = v
+				}
+			}
+			for k, v := range with {
+				out[k] = v
+			}
+			return out
+		}
+		// the scope in which the include tag under test stands: the includer itself, or (placement 4) a template in
+		// between that was itself included with variables and rebinds some names, possibly to null
+		place := rg.Intn(5)
+		incScope := state
+		midInc, midPre := "{% include 'mid' %}", ""
+		withFails, withFails0 := false, false
+		if place == 4 {
+			w0, w0src, f0 := genWith(state, 2)
+			only0 := rg.Intn(4) == 0
+			withFails0 = f0
+			midInc = "{% include 'mid'"
+			if len(w0src) > 0 {
+				midInc += " with {" + strings.Join(w0src, ", ") + "}"
+			}
+			if only0 {
+				midInc += " only"
+			}
+			midInc += " %}"
+			incScope = applyScope(state, w0, only0)
+			var mp strings.Builder
+			for _, nm := range c11Names {
+				switch rg.Intn(5) {
+				case 0:
+					mp.WriteString("{% set " + nm + " = null %}")
+					incScope[nm] = ""
+				case 1:
+					mp.WriteString("{% set " + nm + " = 'mid-" + nm + "' %}")
+					incScope[nm] = "mid-" + nm
+				}
+			}
+			midPre = mp.String()
+		}
+		with, withSrc, f1 := genWith(incScope, 2)
+		withFails = f1
 		only := rg.Intn(3) == 0
 		ignore := rg.Intn(4) == 0
 		sandboxed := rg.Intn(8) == 0
@@ -101,7 +174,6 @@ func runC11(e *Env) error {
 		}
 		inc += " %}"
 		// placement
-		place := rg.Intn(5)
 		probes := "(" + view() + ")"
 		var main string
 		reps := 1
@@ -116,9 +188,9 @@ func runC11(e *Env) error {
 		case 3:
 			main = pre.String() + probes + "{% macro mk() %}" + inc + "{% endmacro %}{{ mk() }}" + probes
 		default:
-			main = pre.String() + probes + "{% include 'mid' %}" + probes
+			main = pre.String() + probes + midInc + probes
 		}
-		tpls := map[string]string{"main": main, "child": pick(rg, childVariants), "failing": failing, "mid": inc, "nestedmissing": nestedMissing}
+		tpls := map[string]string{"main": main, "child": pick(rg, childVariants), "failing": failing, "mid": midPre + inc, "nestedmissing": nestedMissing}
 		c := &Case{Templates: tpls, Main: "main", Ctx: ctx, FailAt: -1}
 		if sandboxed {
 			c.Policy = &PolicySpec{Filters: []string{"upper", "default", "escape"}, Functions: []string{"range", "cm", "mk", "nosuchfn"}}
@@ -128,7 +200,7 @@ func runC11(e *Env) error {
 			return err
 		}
 		key := main + fmt.Sprint(ctx)
-		r.Seen(key, !missing && !fails)
+		r.Seen(key, !missing && !fails && !withFails && !withFails0)
 		r.Hit(fmt.Sprintf("place:%d", place))
 		if i < 2 {
 			r.Sample(map[string]any{"main": main, "ctx": fmt.Sprint(ctx)})
@@ -153,7 +225,7 @@ func runC11(e *Env) error {
 			for _, nm := range c11Names {
 				if v, ok := with[nm]; ok {
 					sb.WriteString(nm + "=" + v + ";")
-				} else if v, ok := state[nm]; ok && !only {
+				} else if v, ok := incScope[nm]; ok && !only {
 					sb.WriteString(nm + "=" + v + ";")
 				} else {
 					sb.WriteString(nm + "=U;")
@@ -168,6 +240,11 @@ func runC11(e *Env) error {
 				Replay: map[string]any{"kind": "render", "templates": tpls, "main": "main", "ctx": ctx, "want": want, "got": im.Out, "class": im.Class, "msg": im.Msg}})
 		}
 		switch {
+		case withFails0 || (withFails && !missing):
+			// a with-value that fails is a render error (the values are evaluated once the template is found)
+			if im.Class != "render" {
+				bad("with-failure-swallowed", "a render error")
+			}
 		case nested:
 			// the included template exists; the template IT includes does not: an error, with or without `ignore missing`
 			if im.Class != "notFound" {
